@@ -25,6 +25,7 @@ type GenOpts struct {
 	ConfigMix   bool     // mark some sub-trees config false
 	ChoiceHeavy bool     // about half of the non-leaf definitions are choices
 	SingleKey   bool     // lists have exactly one key
+	ListHeavy   bool     // many lists, half of the leaves have defaults
 	Types       []string // leaf type pool (YANG type statements without the trailing ;), nil = DefaultTypes
 	KeyTypes    []string // key leaf type pool, nil = DefaultKeyTypes
 	ModuleName  string
@@ -66,7 +67,7 @@ func (g *schemaGen) leaf(kind string) *gnode {
 		types = DefaultTypes
 	}
 	n := &gnode{kind: kind, name: g.id("l"), typ: gen.Pick(g.r, types)}
-	if kind == "leaf" && g.o.Defaults && g.r.Chance(1, 3) {
+	if kind == "leaf" && g.o.Defaults && (g.r.Chance(1, 3) || (g.o.ListHeavy && g.r.Chance(1, 3))) {
 		n.dflt = defaultFor(g.r, n.typ)
 	}
 	return n
@@ -95,6 +96,9 @@ func (g *schemaGen) kids(depth int, inCase bool) []*gnode {
 		roll := g.r.Intn(10)
 		if g.o.ChoiceHeavy && g.o.Choices && roll >= 4 && depth < g.o.MaxDepth && g.r.Chance(1, 2) {
 			roll = 9
+		}
+		if g.o.ListHeavy && g.o.Lists && roll >= 3 && depth < g.o.MaxDepth && g.r.Chance(1, 2) {
+			roll = 6
 		}
 		switch {
 		case roll < 4 || depth >= g.o.MaxDepth:
@@ -526,6 +530,11 @@ func GenDataAgainst(r *gen.Rng, s *SNode, density int, maxRows int, against *Con
 					seen[id] = true
 					l.Rows = append(l.Rows, row)
 				}
+			}
+			// source order is independent of the target's order
+			for i := len(l.Rows) - 1; i > 0; i-- {
+				j := r.Intn(i + 1)
+				l.Rows[i], l.Rows[j] = l.Rows[j], l.Rows[i]
 			}
 			c.Lists[kid.Name] = l
 		}
